@@ -279,7 +279,24 @@ def run_near(ctx, rnd, name, mode, recs, n_orig, max_len, cov):
 
 
 # ------------------------------------------------------------------ part (b)
+PRES = ["18446744073709551616, ", "0xFFFFFFFFFFFFFFFFFF, 0o7, ", "1e300, 0.5, ", "'\\x41', ", "99999999999999999999, 0b1, 2.5, "]
+
+
 def lit_cases(ctx, rnd):
+    out = lit_cases0(ctx, rnd)
+    # the same numeric literals scanned AFTER other literals in one text (the scanner reuses its token value)
+    extra = []
+    for k, c in enumerate([c for c in out if c["cat"] == "num"]):
+        if ctx.quick and k % 3:
+            continue
+        extra.append(dict(c, ctxpre=PRES[k % len(PRES)], fam=c["fam"] + "+pre"))
+    out += extra
+    for i, c in enumerate(out):
+        c["id"] = i + 1
+    return out
+
+
+def lit_cases0(ctx, rnd):
     quick = ctx.quick
     out = []
 
@@ -460,7 +477,7 @@ def lit_signature(c):
 
 def scan_lits(ctx, cases, tag="lits"):
     fin, fout = ctx.path(tag + ".in"), ctx.path(tag + ".out")
-    vlib.write_ndjson(fin, [{"id": c["id"], "lit": c["lit"], "cat": c["cat"]} for c in cases])
+    vlib.write_ndjson(fin, [dict({"id": c["id"], "lit": c["lit"], "cat": c["cat"]}, **({"pre": c["ctxpre"]} if c.get("ctxpre") else {})) for c in cases])
     ctx.vh(["c14-lits", "-in", fin, "-out", fout])
     res = {r["id"]: r for r in vlib.read_ndjson(fout)}
     if len(res) != len(cases):
